@@ -557,6 +557,9 @@ func (ex *Exec) havocLvalue(st *State, env *SpecEnv, text string) {
 	var fs []*Term
 	nv := freshVal(t, "mod", &fs)
 	ex.addFacts(nil, fs)
+	// whatever the callee / earlier iterations stored there exists now
+	ex.assumeOlder(nv)
+	ex.assumeSealed(nv, t)
 	st.heap.store(addr, t, nv)
 }
 
